@@ -92,6 +92,9 @@ class TlcResult:
         return res
 
 
+TIMEOUTS = []
+
+
 def tlc(module_path, cfg_path, env=None, workers=None, timeout=900, extra=None, mem='8g', simulate=None,
         deadlock=False, cont=False, seedv=None):
     """Run TLC; module_path is absolute path to X.tla.  Returns TlcResult."""
@@ -128,6 +131,11 @@ def tlc(module_path, cfg_path, env=None, workers=None, timeout=900, extra=None, 
                 pass
     r = TlcResult(rc, out, time.time() - t0)
     if rc == 124:
+        # a record-level run (-continue) that was cut short has printed the violations it met so far: they are reported.
+        # Verdict.finish() turns the run into "check broken" if none of them is a new violation (a timeout is never silently accepted).
+        if cont and r.violated:
+            TIMEOUTS.append('TLC timed out after %ss on %s' % (timeout, module_path))
+            return r
         raise Broken('TLC timed out after %ss on %s' % (timeout, module_path))
     if rc not in (0, 12, 13) and not r.violated and not r.post_failed:
         raise Broken('TLC failed (rc=%d) on %s:\n%s' % (rc, module_path, out[-5000:]))
@@ -202,7 +210,11 @@ class Verdict:
                 (self.pid, k, self.known[k][:160], len(v), str(v[0])[:160]))
             self.ev.cov['known_findings_seen'].append({'key': k, 'cases': len(v)})
         self.ev.violations = len(self.new)
+        if TIMEOUTS:
+            self.ev.cov['tlc_timeouts'] = list(TIMEOUTS)
         if not self.new:
+            if TIMEOUTS:
+                raise Broken('; '.join(TIMEOUTS) + ' (and nothing new was found in the part that was evaluated)')
             return 0
         hist = {}
         for key, what, replay in self.new:
